@@ -468,6 +468,43 @@ macro_rules! masks_and_ops_impl {
             pack!("Cam16UcsJab", TJab);
             pack!("Cam16UcsJmh", TJmh);
         }
+        // MinMax on vectors, and the WCAG contrast of SIMD colours (the lighter / darker luminance is chosen lane by lane)
+        {
+            use palette::color_difference::Wcag21RelativeContrast;
+            use palette::num::MinMax;
+            let (mn, mx) = va.min_max(vb);
+            let (mn, mx, mn1, mx1) = (mn.into_array(), mx.into_array(), MinMax::min(va, vb).into_array(), MinMax::max(va, vb).into_array());
+            m.eval();
+            for k in 0..N {
+                let (lo, hi) = if a[k].d() <= b[k].d() { (a[k].d(), b[k].d()) } else { (b[k].d(), a[k].d()) };
+                if mn[k].d() != lo || mx[k].d() != hi || mn1[k].d() != lo || mx1[k].d() != hi {
+                    m.violate(&format!("min_max/{}", vname), "lane_differs_from_scalar", inp(), json!({"lane": k, "min_max": [mn[k].d(), mx[k].d()], "min": mn1[k].d(), "max": mx1[k].d()}), json!([lo, hi]), "");
+                    break;
+                }
+            }
+            let unit = |x: S| S::f(x.d().max(0.0).min(1.0));
+            let c1: [TSrgb<S>; N] = core::array::from_fn(|k| TSrgb::new(unit(a[k]), unit(b[k]), unit(c[k])));
+            let c2: [TSrgb<S>; N] = core::array::from_fn(|k| TSrgb::new(unit(d[k]), unit(a[k]), unit(b[k])));
+            let (v1, v2): (TSrgb<V>, TSrgb<V>) = (c1.into(), c2.into());
+            let r = v1.relative_contrast(v2).into_array();
+            let p = v1.has_min_contrast_text(v2).select(V::from_array([S::f(1.0); N]), V::from_array(zero)).into_array();
+            let l1: [palette::SrgbLuma<S>; N] = core::array::from_fn(|k| palette::SrgbLuma::new(unit(a[k])));
+            let l2: [palette::SrgbLuma<S>; N] = core::array::from_fn(|k| palette::SrgbLuma::new(unit(d[k])));
+            let lv1 = palette::SrgbLuma::<V>::new(V::from_array(core::array::from_fn(|k| l1[k].luma)));
+            let lv2 = palette::SrgbLuma::<V>::new(V::from_array(core::array::from_fn(|k| l2[k].luma)));
+            let rl = lv1.relative_contrast(lv2).into_array();
+            m.evals(3);
+            for k in 0..N {
+                let w = c1[k].relative_contrast(c2[k]).d();
+                let wl = l1[k].relative_contrast(l2[k]).d();
+                let t = (if S::IS32 { 2e-4 } else { 1e-9 }) * w.max(wl);
+                if !((r[k].d() - w).abs() <= t) || (p[k].d() == 1.0) != (r[k].d() >= 4.5) || !((rl[k].d() - wl).abs() <= t) {
+                    m.violate(&format!("wcag_relative_contrast/{}", vname), "lane_differs_from_scalar", json!({"lane": k, "srgb1": fvec(&un::<_, S>(c1[k])), "srgb2": fvec(&un::<_, S>(c2[k]))}), json!({"rgb": r[k].d(), "min_contrast_text": p[k].d() == 1.0, "luma": rl[k].d()}), json!({"rgb": w, "luma": wl}), "");
+                    break;
+                }
+            }
+            m.cell_s(&format!("wcag{}", vname));
+        }
         // hues several turns outside [0, 360): every lane wraps on its own
         {
             let hs: [S; N] = core::array::from_fn(|k| S::f(if it % 3 == 0 { (a[k].d() * 9.0).floor() * 360.0 - 1440.0 + b[k].d() * 5.0 } else { a[k].d() * 3000.0 - 1200.0 }));
